@@ -5,6 +5,7 @@ Body to splice for that call, or None.  Recursion is cut by a stack check and a 
 """
 import copy
 from .facts import Body
+from .facts import strip_generics as _sg
 
 
 def _shift_place(p, loff):
@@ -179,6 +180,7 @@ def _inline_closure_calls(crate, body, pick, max_depth, rnd):
     from .terms import Terms, norm
     T = None
     targets = {}
+    devirt = {}
     for bi, blk in enumerate(body.blocks):
         t = blk['term']
         if t['k'] != 'call' or blk['cleanup']:
@@ -196,6 +198,44 @@ def _inline_closure_calls(crate, body, pick, max_depth, rnd):
             f = f[1]
         if f[0] == 'closure' and f[1] in crate.bodies:
             targets[bi] = crate.bodies[f[1]]
+        elif f[0] == 'fn' and len(t['args']) == 2:
+            # a function item passed as a value (`unit: impl Fn(&Duration) -> u128` called with Duration::as_millis):
+            # the indirect call is a direct call of that function
+            tup = norm(T.operand_term(t['args'][1], bi, len(blk['stmts'])))
+            devirt[bi] = (f[1], tup)
+    if devirt:
+        j2 = copy.deepcopy(body.j)
+        changed = False
+        for bi, (path, tup) in devirt.items():
+            tt = j2['blocks'][bi]['term']
+            targ = tt['args'][1]
+            n_args = len(tup[1]) if tup[0] == 'tuple' else None
+            if n_args is None or targ.get('k') not in ('copy', 'move'):
+                continue
+            new_args = [{'k': targ['k'], 'place': {'l': targ['place']['l'], 'p': targ['place']['p'] + [['field', i, None, '?']]}} for i in range(n_args)]
+            local = [b for b in crate.all_bodies if _sg(b.path) == path and b.def_kind in ('Fn', 'AssocFn')]
+            tt['args'] = new_args
+            tt['callee'] = path
+            tt['callee_full'] = path
+            tt['callee_name'] = path.rsplit('::', 1)[-1]
+            tt['callee_args'] = []
+            tt['devirtualised'] = True
+            if len(local) == 1:
+                tt['resolved'] = local[0].path
+                tt['resolved_full'] = local[0].path
+                tt['resolved_local'] = True
+                tt['resolved_kind'] = 'item'
+            else:
+                tt['resolved'] = path
+                tt['resolved_local'] = False
+                tt['resolved_kind'] = 'item'
+            changed = True
+        if changed:
+            nb0 = Body(j2, crate)
+            nb0.inlined = getattr(body, 'inlined', None)
+            if not targets:
+                return inline(crate, nb0, pick, max_depth, _closure_round=rnd + 1)
+            body = nb0
     if not targets:
         return None
 
